@@ -28,11 +28,19 @@ class AssocGen(F.Gen):
     print_names  PRINT statements may mention associate names
     whole        whole-array selectors (`z => ia`, used as z(i) / z(lo:hi) / z inside the block)
     intrinsics   False: no intrinsic function references anywhere in the kernel (subscripts are literals or loop
-                 variables, values are not folded back by MOD - more programs leave the machine's magnitude bound)"""
+                 variables, values are not folded back by MOD - more programs leave the machine's magnitude bound)
+    sections     rank-1 array-section selectors: 'lb1' only sections for which name(e) denotes base(e) (they start
+                 at index 1 with unit stride), 'shift' any section (other lower bounds, strides, `:` on ia(0:4),
+                 rows of ib(1:3,-1:1), sections of sections)
+    shadow       a nested block may rebind (shadow) a name of an enclosing block"""
 
     def __init__(self, rng, features=(), volatile=False, expr=True, unique=True, dependent=True, subdep=False,
-                 print_names=False, whole=True, max_depth=3, intrinsics=True):
+                 print_names=False, whole=True, max_depth=3, intrinsics=True, sections='none', shadow=False):
         super().__init__(rng, features)
+        self.sections = sections     # 'none' | 'lb1' (sections whose name(e) is base(e): lower bound 1, unit stride) | 'shift' (any)
+        self.shadow = shadow         # a nested block may reuse (shadow) a name of an enclosing block
+        self.sec_alias = {}          # associate names currently bound to an integer rank-1 section -> extent
+        self.var_alias = []          # associate names currently bound to a writable scalar VARIABLE (not an element)
         self.volatile = volatile
         self.expr = expr
         self.unique = unique
@@ -53,6 +61,10 @@ class AssocGen(F.Gen):
         if 'assoc' in self.f and self.assoc_depth < self.max_depth and self.rng.random() < (0.35 if self.assoc_depth else 0.2):
             return self.assoc_stmt(d)
         out = super().stmt(d)
+        if self.assoc_names:
+            for s in out:
+                if s['s'] == 'call':
+                    self.use_names_in_call(s)
         if not self.print_names and self.assoc_names:
             for s in out:
                 if s['s'] == 'print' and mentions(s['items'], set(self.assoc_names)):
@@ -60,6 +72,26 @@ class AssocGen(F.Gen):
                     if mentions(s['items'], set(self.assoc_names)):      # through ia_elem of an array alias
                         s['items'] = [V('k'), V('t1')]
         return out
+
+    def use_names_in_call(self, s):
+        """Associate names as actual arguments (respecting Fortran's aliasing rules: the intent(out) scalar of
+        h1 is never an element of the array passed alongside)."""
+        rng = self.rng
+        visible = set(self.int_scalars)
+        if s['name'] == 'h1':
+            if self.arr_alias and rng.random() < 0.5:
+                s['args'][0] = V(rng.choice(self.arr_alias))
+            if rng.random() < 0.6:
+                s['args'][1] = op('sum', self.int_expr(1, [x for x in self.int_scalars if x not in self.active_loops]), N(1))
+            va = [x for x in self.var_alias if x in visible]
+            if va and rng.random() < 0.5:
+                s['args'][2] = V(rng.choice(va))
+        elif s['name'] == 'h2':
+            wr = [x for x in self.int_writable if x not in self.active_loops]
+            tgt = V(rng.choice(wr))
+            if rng.random() < 0.7:
+                s['args'][0] = tgt
+                s['args'][1] = op('sum', self.int_expr(1, [x for x in self.int_scalars if x not in self.active_loops]), N(1))
 
     def bounded(self, e):
         return super().bounded(e) if self.intrinsics else e
@@ -82,11 +114,25 @@ class AssocGen(F.Gen):
         return e if self.intrinsics or not has_kind(e, 'call') else R(1, 2)
 
     def ia_elem(self, scalars):
+        if self.sec_alias and self.rng.random() < 0.5:
+            z = self.rng.choice(sorted(self.sec_alias))
+            return el(z, N(self.rng.randint(1, self.sec_alias[z])))
         if self.arr_alias and self.rng.random() < 0.6:
             return el(self.rng.choice(self.arr_alias), self.index('ia', 0, scalars))
         return super().ia_elem(scalars)
 
     def section_stmt(self):
+        if self.sec_alias and self.rng.random() < 0.7:
+            z = self.rng.choice(sorted(self.sec_alias))
+            n = self.sec_alias[z]
+            r = self.rng.random()
+            if r < 0.4 or n < 2:
+                return [assign(V(z), _m(op('sum', V(z), self.int_leaf(self.int_scalars_noarr))))]
+            if r < 0.7:
+                return [assign(el(z, rng_(N(1), N(n - 1))), _m(op('prod', el(z, rng_(N(2), N(n))), N(2))))]
+            if self.sections == 'lb1':      # closed ranges only: z(:b) / z(a:) need the section's own bounds
+                return [assign(el(z, rng_(N(2), N(n))), _m(op('sum', el(z, rng_(N(1), N(n - 1))), N(1)), 7))]
+            return [assign(el(z, rng_(N(2), NONE)), _m(op('sum', el(z, rng_(NONE, N(n - 1))), N(1)), 7))]
         if self.arr_alias and self.rng.random() < 0.7:
             z = self.rng.choice(self.arr_alias)
             lo, hi = self.arrays['ia'][0]
@@ -97,6 +143,21 @@ class AssocGen(F.Gen):
                 return [assign(el(z, rng_(N(lo), N(hi - 1))), _m(op('prod', el(z, rng_(N(lo + 1), N(hi))), N(2))))]
             return [assign(el(z, rng_(N(lo + 1), N(hi))), call('mod', op('sum', el('ia', rng_(N(lo + 1), N(hi))), N(1)), N(7)))]
         return super().section_stmt()
+
+    def section_selector(self):
+        """-> (selector, extent) of an integer rank-1 section with literal bounds."""
+        rng = self.rng
+        j = rng.choice([-1, 0, 1])
+        aligned = [(el('ia', rng_(N(1), N(h))), h) for h in (2, 3, 4)] + [(el('ib', rng_(), N(j)), 3), (el('ib', rng_(N(1), N(2)), N(j)), 2)]
+        aligned += [(el(z, rng_(N(1), N(n - 1))), n - 1) for z, n in self.sec_alias.items() if n > 2]
+        if self.sections == 'lb1':
+            return rng.choice(aligned)
+        shifted = [(el('ia', rng_(N(2), N(4))), 3), (el('ia', rng_()), 5), (el('ia', rng_(N(0), N(4), N(2))), 3), (el('ia', rng_(N(4), N(1), N(-1))), 4),
+                   (el('ia', rng_(NONE, N(2))), 3), (el('ia', rng_(N(1), N(3), N(2))), 2), (el('ib', N(rng.randint(1, 3)), rng_()), 3),
+                   (el('ib', rng_(N(2), N(3)), N(j)), 2), (el('ib', N(2), rng_(N(0), N(1))), 2)]
+        shifted += [(el(z, rng_(N(2), NONE)), n - 1) for z, n in self.sec_alias.items() if n >= 2] + \
+                   [(el(z, rng_(NONE, NONE, N(2))), (n + 1) // 2) for z, n in self.sec_alias.items() if n >= 3]
+        return rng.choice(shifted if rng.random() < 0.8 else aligned)
 
     def stable_sub(self):
         """A subscript of ia that nothing inside the outermost block defines."""
@@ -111,7 +172,8 @@ class AssocGen(F.Gen):
         if self.assoc_depth == 0:
             self.outer_loops = list(self.active_loops)
         names, targets = [], []
-        lvl = dict(scal=[], ro=[], arr=[], wr=[])
+        lvl = dict(scal=[], ro=[], arr=[], wr=[], sec={})
+        shadowed = []
         parent = self.levels[-1] if self.levels else None
         npairs = rng.choice([1, 2, 2, 3])
         want_dep = self.dependent and parent is not None
@@ -124,6 +186,15 @@ class AssocGen(F.Gen):
             r = rng.random()
             writable = [v for v in self.int_writable if v not in self.active_loops]
             kind = 'arr' if self.whole and r < 0.2 else 'var' if r < 0.45 else 'elem' if r < 0.75 else 'expr' if self.expr else 'rovar'
+            if self.sections != 'none' and rng.random() < 0.4:
+                kind = 'sec'
+            if self.shadow and self.assoc_names and i == npairs - 1 and rng.random() < 0.7:
+                # rebind a name of an enclosing block to a scalar entity
+                cand = [x for x in dict.fromkeys(self.assoc_names) if x not in names]
+                if cand:
+                    nm = rng.choice(cand)
+                    kind = rng.choice(['var', 'elem', 'rovar'])
+                    shadowed.append(nm)
             if want_dep and i == 0:
                 # a selector that mentions a name of the parent block
                 opts = []
@@ -137,9 +208,9 @@ class AssocGen(F.Gen):
                         opts += ['sub', 'sub']
                 if parent['arr']:
                     opts += ['arr', 'elem']
-                if not opts:
-                    kind = 'none'
-                else:
+                if parent['sec']:
+                    opts += ['secelem']
+                if opts:
                     kind = rng.choice(opts)
                     if kind == 'var':
                         t = V(rng.choice(parent['wr']))
@@ -160,6 +231,11 @@ class AssocGen(F.Gen):
                     elif kind == 'arr':
                         t = V(rng.choice(parent['arr']))
                         lvl['arr'].append(nm)
+                    elif kind == 'secelem':
+                        z = rng.choice(sorted(parent['sec']))
+                        t = el(z, N(rng.randint(1, parent['sec'][z])))
+                        lvl['wr'].append(nm)
+                        lvl['scal'].append(nm)
                     else:
                         t = el(rng.choice(parent['arr']), self.stable_sub())
                         lvl['wr'].append(nm)
@@ -167,7 +243,10 @@ class AssocGen(F.Gen):
                     names.append(nm)
                     targets.append(t)
                     continue
-            if kind == 'arr':
+            if kind == 'sec':
+                t, ext = self.section_selector()
+                lvl['sec'][nm] = ext
+            elif kind == 'arr':
                 t = V('ia') if not self.arr_alias or rng.random() < 0.5 else V(rng.choice(self.arr_alias))
                 lvl['arr'].append(nm)
             elif kind == 'var':
@@ -204,17 +283,30 @@ class AssocGen(F.Gen):
                 lvl['scal'].append(nm)
             names.append(nm)
             targets.append(t)
-        saved = (list(self.int_writable), list(self.int_scalars), list(self.arr_alias))
+        saved = (list(self.int_writable), list(self.int_scalars), list(self.arr_alias), dict(self.sec_alias), copy.deepcopy(self.levels),
+                 list(self.var_alias))
+        if shadowed:      # the enclosing bindings of these names are invisible inside the block
+            self.int_writable = [x for x in self.int_writable if x not in shadowed]
+            self.int_scalars = [x for x in self.int_scalars if x not in shadowed]
+            self.arr_alias = [x for x in self.arr_alias if x not in shadowed]
+            self.var_alias = [x for x in self.var_alias if x not in shadowed]
+            self.sec_alias = {k: v for k, v in self.sec_alias.items() if k not in shadowed}
+            for l in self.levels:
+                for key in ('scal', 'ro', 'arr', 'wr'):
+                    l[key] = [x for x in l[key] if x not in shadowed]
+                l['sec'] = {k: v for k, v in l['sec'].items() if k not in shadowed}
         self.assoc_names += names
         self.int_writable = self.int_writable + lvl['wr'] * 2     # twice: bias towards using the names
         self.int_scalars = self.int_scalars + lvl['scal'] * 3
         self.arr_alias = self.arr_alias + lvl['arr']
+        self.sec_alias = dict(self.sec_alias, **lvl['sec'])
+        self.var_alias = self.var_alias + [nm_ for nm_, t_ in zip(names, targets)
+                                           if t_['k'] == 'var' and nm_ in lvl['wr'] and (t_['name'] in ('k', 't1', 't2') or t_['name'] in self.var_alias)]
         self.levels.append(lvl)
         self.assoc_depth += 1
         body = self.block(d - 1, rng.randint(1, 3))
         self.assoc_depth -= 1
-        self.levels.pop()
-        self.int_writable, self.int_scalars, self.arr_alias = saved
+        self.int_writable, self.int_scalars, self.arr_alias, self.sec_alias, self.levels, self.var_alias = saved
         for _ in names:
             self.assoc_names.pop()
         return [{'s': 'assoc', 'names': names, 'targets': targets, 'body': body}]
